@@ -28,7 +28,7 @@ PROPS = {
     ),
     "C09": dict(
         family="split",
-        theorems=T("C09", "case_fold_is_model", "translated_compare_ci_is_model", "split_eq_spec", "split_char_eq_spec", "split_cstr_eq_spec", "split_cstr_ascii", "split_length_le", "join_split",
+        theorems=T("C09", "case_fold_is_model", "translated_compare_ci_is_model", "translated_find_ci_is_model", "split_eq_spec", "split_char_eq_spec", "split_cstr_eq_spec", "split_cstr_ascii", "split_length_le", "join_split",
                    "empty_sep_whole", "tokenize_eq_spec", "tokens_nonempty", "tokens_no_delim", "tokens_maximal", "tokens_exactly",
                    "replace_scans_agree", "replace_eq_spec", "replace_len", "replace_empty", "split_forms_agree", "split_pieces_utf8", "split_forms_agree_utf8", "replace_forms_agree",
                    "arg_toString_assume", "terminates", "ci_folds_ascii_only", "fold_only_ascii_letters", "spec_fuel_irrelevant", "pinned_split_empty_sep_witness", "pinned_replace_revalidates_witness"),
